@@ -234,3 +234,236 @@ Proof.
   split; [|split; vm_compute; reflexivity].
   repeat constructor; simpl; try reflexivity; discriminate.
 Qed.
+
+(** * Part C — adjacency lists (list-of-lists and dict forms) and GraphML documents *)
+From SKN Require Import Model.AdjacencyList Proofs.AdjacencyProofs Model.Graphml Proofs.GraphmlKeysProofs Proofs.GraphmlScanProofs Proofs.GraphmlProofs.
+Set Warnings "-notation-overridden".
+
+(** ** from_adjacency_list *)
+
+(** The code turns both forms into the edge list [(i, j) for i, neighbors in ... for j in neighbors]
+    ([adjacency_edges]) and calls from_edge_list without weights. For every identifier type, ALL flag
+    combinations and every adjacency dict (insertion order, keys possibly missing for some neighbours,
+    empty lists): entry (i, j) of the result is the number of occurrences of (the identifier that is)
+    node j in the lists of the keys that are node i when weighted and sum_duplicates are on, and 1 iff
+    there is at least one occurrence otherwise; plus the reverse direction when undirected (still binary
+    when unweighted); rows are keys and columns are neighbours when bipartite. *)
+Theorem adjacency_dict_entry {id : Type} (ideqb : id -> id -> bool) (as_int : id -> option nat)
+        (unique : list id -> list id * list nat) (fl : flags) (adj : list (id * list id)) (d : dataset) :
+  (forall a b, ideqb a b = true <-> a = b) ->
+  (forall a b k, as_int a = Some k -> as_int b = Some k -> a = b) ->
+  unique_ok ideqb unique ->
+  from_adjacency_dict ideqb as_int unique pp_sym_passes_weighted fl adj = Some d ->
+  forall i j, Parse.entry (d_matrix d) i j = adj_spec_entry ideqb as_int fl (row_names d) (col_names d) adj i j.
+Proof.
+  exact (fun H1 H2 H3 H => AdjacencyProofs.adjacency_dict_entry ideqb as_int unique pp_sym_passes_weighted H1 H2 H3 fl adj d H
+                             from_edge_array_passes_weighted).
+Qed.
+Print Assumptions adjacency_dict_entry.
+
+(** The list-of-lists form: node i is the position of its list. *)
+Theorem adjacency_list_entry (fl : flags) (adj : list (list nat)) (d : dataset) :
+  from_adjacency_list_nat pp_sym_passes_weighted fl adj = Some d ->
+  forall i j, Parse.entry (d_matrix d) i j
+              = adj_spec_entry Nat.eqb as_int_nat fl (row_names d) (col_names d) (enumerate_rows adj) i j.
+Proof. exact (fun H => AdjacencyProofs.adjacency_list_entry pp_sym_passes_weighted fl adj d H from_edge_array_passes_weighted). Qed.
+Print Assumptions adjacency_list_entry.
+
+(** Without reindexing the count is simply the number of occurrences of j in list number i. *)
+Theorem adjacency_list_count (adj : list (list nat)) (i j : nat) :
+  adj_count Nat.eqb as_int_nat None None (enumerate_rows adj) i j = occurrences adj i j.
+Proof. exact (adjacency_list_plain_count adj i j). Qed.
+Print Assumptions adjacency_list_count.
+
+(** Names: every key with a non-empty list and every neighbour has an index inside the shape whose name
+    is that identifier; names are distinct, as many as the dimension, and each one is such a key or
+    neighbour (a key whose list is empty and that is nobody's neighbour lists no edge and gets no index);
+    reindexing always produces names. *)
+Theorem adjacency_dict_names {id : Type} (ideqb : id -> id -> bool) (as_int : id -> option nat)
+        (unique : list id -> list id * list nat) (fl : flags) (adj : list (id * list id)) (d : dataset) :
+  (forall a b, ideqb a b = true <-> a = b) ->
+  unique_ok ideqb unique ->
+  from_adjacency_dict ideqb as_int unique pp_sym_passes_weighted fl adj = Some d ->
+  (forall k nb b, In (k, nb) adj -> In b nb ->
+     exists i j, i < fst (m_shape (d_matrix d)) /\ j < snd (m_shape (d_matrix d)) /\
+                 is_node ideqb as_int (row_names d) i k = true /\ is_node ideqb as_int (col_names d) j b = true) /\
+  (forall ns, row_names d = Some ns ->
+     NoDup ns /\ length ns = fst (m_shape (d_matrix d)) /\
+     forall x, In x ns -> exists k nb, In (k, nb) adj /\ nb <> [] /\ (x = k \/ In x nb)) /\
+  (forall ns, col_names d = Some ns ->
+     NoDup ns /\ length ns = snd (m_shape (d_matrix d)) /\
+     forall x, In x ns -> exists k nb, In (k, nb) adj /\ nb <> [] /\ (x = k \/ In x nb)) /\
+  d_names d = row_names d /\
+  (reindex fl = true -> row_names d <> None /\ col_names d <> None).
+Proof. exact (fun H1 H3 => AdjacencyProofs.adjacency_dict_names ideqb as_int unique pp_sym_passes_weighted H1 H3 fl adj d). Qed.
+Print Assumptions adjacency_dict_names.
+
+(** ** from_graphml over an abstract parsed document
+
+    [from_graphml_with dl] is the model of the function for the two dialects of the code ([current]: as
+    it is now; [legacy]: before the two repairs); the theorems hold for both, the dialect only enters
+    through [doc_keys] (which key gives the weights, how booleans are cast). Hypotheses: the code accepts
+    the document (no exception) and the document has ONE graph element ([doc_graphs root = [g]]; with
+    several, the code applies the element indices of all of them to the last one). *)
+
+(** (1) Nodes and names: as many nodes as node elements; names are the node ids in document order, cut
+    to 512 characters (none when parse.nodeids="canonical"); every node element carries an id. *)
+Theorem graphml_nodes (dl : dialect) (wk : string) (mss : nat) (root g : xml) (b : bunch) :
+  from_graphml_with dl wk mss root = Ok b -> doc_graphs root = [g] ->
+  b_n b = length (doc_nodes g) /\ length (doc_ids g) = b_n b /\
+  b_names b = (if doc_naming g then Some (map (substring 0 names_width) (doc_ids g)) else None) /\
+  (doc_naming g = true -> forall nd, In nd (doc_nodes g) -> attr "id" nd <> None).
+Proof. exact (GraphmlProofs.graphml_nodes dl wk mss root g b). Qed.
+Print Assumptions graphml_nodes.
+
+(** With distinct ids of at most 512 characters: names = ids, and the index an edge end is resolved to
+    (the dict node_map, last writer wins) is the position of the id: names[index id] = id. *)
+Theorem graphml_names_roundtrip (ids : list string) :
+  NoDup ids -> (forall x, In x ids -> String.length x <= names_width) ->
+  map (substring 0 names_width) ids = ids /\
+  forall x k, index_last ids x 0 = Some k <-> nth_error ids k = Some x.
+Proof. exact (names_index_roundtrip ids). Qed.
+Print Assumptions graphml_names_roundtrip.
+
+(** (2) Entries: the dtype is that of the weight key (bool when there is none, int for int, float for
+    long / float / double), and entry (i, j) is the SUM in that dtype (logical or for bool) of the weights
+    of the edge elements listed from node i to node j, plus those of the mirrored edges listed from j to
+    i — so duplicate edges add up and a mirrored self-loop counts twice. The weight of an edge
+    ([doc_weight]) is the text of its last <data> child that refers to the weight key, cast to the key's
+    type; when it has none: the default weight. *)
+Theorem graphml_entry (dl : dialect) (wk : string) (mss : nat) (root g : xml) (b : bunch) :
+  from_graphml_with dl wk mss root = Ok b -> doc_graphs root = [g] ->
+  b_dtype b = doc_wtype (doc_keys dl wk mss root) /\
+  forall i j, gm_entry b i j = spec_gm_entry dl (doc_keys dl wk mss root) g i j.
+Proof. exact (GraphmlProofs.graphml_entry dl wk mss root g b). Qed.
+Print Assumptions graphml_entry.
+
+(** The weight key and the default weight, read off the key elements: with no weight key the matrix is
+    boolean and every listed edge has weight True; with exactly one, type and id are its attr.type and id
+    and the default weight is the cast of its last <default> child, else 1. *)
+Theorem graphml_weight_rule (dl : dialect) (wk : string) (mss : nat) (root : xml) :
+  ((forall fe, In fe (x_children root) -> is_weight_key dl wk fe = false) ->
+   doc_wtype (doc_keys dl wk mss root) = PBool /\
+   forall e, doc_weight dl (doc_keys dl wk mss root) e = VBool true) /\
+  (forall pre kw post,
+     x_children root = (pre ++ kw :: post)%list -> is_weight_key dl wk kw = true ->
+     (forall fe, In fe pre \/ In fe post -> is_weight_key dl wk fe = false) ->
+     k_wty (doc_keys dl wk mss root) = key_type kw /\
+     k_wid (doc_keys dl wk mss root) = attr "id" kw /\
+     k_dw (doc_keys dl wk mss root) = weight_default_pure dl (key_type kw) (x_children kw) (VInt 1)).
+Proof. exact (GraphmlProofs.graphml_weight_rule dl wk mss root). Qed.
+Print Assumptions graphml_weight_rule.
+
+Theorem graphml_default_weight (dl : dialect) (ty : ptype) (kes : list xml) (dw : value) (k : kstate) :
+  ((forall d, In d kes -> is_tag "default" d = true -> exists v, cast dl ty (x_text d) = Ok v) ->
+   weight_default_pure dl ty kes dw
+   = match rev (filter (is_tag "default") kes) with d :: _ => cast_or dl ty (x_text d) dw | [] => dw end) /\
+  (k_dw k = VInt 1 ->
+   doc_wfill k = match k_wty k with PBool => VBool true | PFloat => VFloat 1 | _ => VInt 1 end).
+Proof. exact (conj (weight_default_pure_last dl ty kes dw) (default_weight_one k)). Qed.
+Print Assumptions graphml_default_weight.
+
+(** (3) Direction, as coded: an edge is stored in both directions iff its own [directed] attribute is
+    present and different from "true", or absent while edgedefault = "undirected". When no edge is
+    mirrored, entry (i, j) only counts the edges from i to j; when all are, the matrix is symmetric. *)
+Theorem graphml_direction (dl : dialect) (wk : string) (mss : nat) (root g : xml) (b : bunch) :
+  from_graphml_with dl wk mss root = Ok b -> doc_graphs root = [g] ->
+  (doc_sym g = true <-> attr "edgedefault" g = Some "undirected"%string) /\
+  (forall e, edge_mirrored (doc_sym g) e
+             = match attr "directed" e with Some v => negb (String.eqb v "true") | None => doc_sym g end) /\
+  ((forall e, In e (doc_edges g) -> edge_mirrored (doc_sym g) e = false) ->
+   forall i j, gm_entry b i j
+               = dsumq (b_dtype b) (map qval (flat_map (fun e => if ends_are g e i j
+                                                                  then [doc_weight dl (doc_keys dl wk mss root) e] else [])
+                                                        (doc_edges g)))) /\
+  ((forall e, In e (doc_edges g) -> edge_mirrored (doc_sym g) e = true) ->
+   forall i j, (gm_entry b i j == gm_entry b j i)%Q).
+Proof. exact (GraphmlProofs.graphml_direction dl wk mss root g b). Qed.
+Print Assumptions graphml_direction.
+
+(** (4) Attributes: node attribute arrays follow the node elements, edge attribute arrays follow the
+    stored entries (a mirrored edge fills two consecutive slots); the value is the text of the last
+    <data> child feeding the attribute, cast to its key's type (strings cut to max_string_size), else the
+    key's default when it is truthy, else zero / empty. meta holds the descriptions. *)
+Theorem graphml_attributes (dl : dialect) (wk : string) (mss : nat) (root g : xml) (b : bunch) :
+  from_graphml_with dl wk mss root = Ok b -> doc_graphs root = [g] ->
+  b_node_attr b = node_columns dl (doc_keys dl wk mss root) mss g /\
+  b_edge_attr b = edge_columns dl (doc_keys dl wk mss root) mss g /\
+  b_meta b = meta_of (doc_keys dl wk mss root).
+Proof. exact (GraphmlProofs.graphml_attributes dl wk mss root g b). Qed.
+Print Assumptions graphml_attributes.
+
+(** The key table of the theorems above IS the one the code builds whenever it raises nothing. *)
+Theorem graphml_key_table (dl : dialect) (wk : string) (mss : nat) (root : xml) (k : kstate) :
+  scan_keys dl wk mss root = Ok k -> k = doc_keys dl wk mss root.
+Proof. exact (scan_keys_pure dl wk mss root k). Qed.
+Print Assumptions graphml_key_table.
+
+Theorem graphml_no_graph (dl : dialect) (wk : string) (mss : nat) (root : xml) :
+  doc_graphs root = [] -> forall b, from_graphml_with dl wk mss root <> Ok b.
+Proof. exact (GraphmlProofs.graphml_no_graph dl wk mss root). Qed.
+Print Assumptions graphml_no_graph.
+
+(** The code as it is now reads the weight key and booleans as the GraphML standard does: the weight
+    key is a key named weight_key whose domain is edge or all; "true" / "1" (any case, blanks around)
+    are true, everything else is false. *)
+Theorem graphml_current_reading (wk : string) (fe : xml) (text : option string) (s : string) :
+  is_weight_key current wk fe = is_edge_weight_key wk fe /\
+  cast current PBool text = Ok (VBool (bool_text text)) /\
+  (lower s = s -> bool_text (Some s) = gml_bool (Some s)) /\ bool_text None = false.
+Proof. exact (conj (weight_key_current wk fe) (conj (bool_cast_current text) (conj (bool_text_gml s) bool_text_none))). Qed.
+Print Assumptions graphml_current_reading.
+
+(** Both guards were necessary: the code before the repairs ([legacy]) loses the weights on a document
+    whose only key named "weight" is a NODE key (entry 5 instead of 1, node attribute dropped), and on a
+    boolean weight "false" (entry 1 instead of 0). *)
+Theorem graphml_legacy_node_weight_key_refuted :
+  exists root g b b',
+    doc_graphs root = [g] /\
+    (forall fe, In fe (x_children root) -> is_edge_weight_key "weight" fe = false) /\
+    from_graphml_with legacy "weight" 512 root = Ok b /\
+    gm_entry b 0 1 = (5 # 1)%Q /\ b_node_attr b = None /\
+    from_graphml_with current "weight" 512 root = Ok b' /\
+    gm_entry b' 0 1 = (1 # 1)%Q /\ b_dtype b' = PBool /\
+    b_node_attr b' = Some [("weight"%string, (PFloat, [VFloat (5 # 1); VFloat (5 # 1)]))].
+Proof. exact legacy_node_weight_key_refuted. Qed.
+Print Assumptions graphml_legacy_node_weight_key_refuted.
+
+Theorem graphml_legacy_boolean_weight_refuted :
+  exists root g e c b b',
+    doc_graphs root = [g] /\ In e (doc_edges g) /\
+    doc_index g "source" e = Some 0 /\ doc_index g "target" e = Some 1 /\
+    weight_data (Some "d0"%string) e = [c] /\ gml_bool (x_text c) = false /\
+    from_graphml_with legacy "weight" 512 root = Ok b /\ gm_entry b 0 1 = (1 # 1)%Q /\
+    from_graphml_with current "weight" 512 root = Ok b' /\ gm_entry b' 0 1 = (0 # 1)%Q /\ gm_entry b' 1 0 = (1 # 1)%Q.
+Proof. exact legacy_boolean_weight_refuted. Qed.
+Print Assumptions graphml_legacy_boolean_weight_refuted.
+
+(** ** Non-vacuity *)
+
+Example c18_adjacency_nonvacuous :
+  view (from_adjacency_list_nat pp_sym_passes_weighted
+          {| directed := true; bipartite := false; weighted := true; reindex := false;
+             sum_duplicates := true; shape := None; matrix_only := None |} [[1; 1; 2]; []; [0]])
+  = Some (3, 3, [(0, 1, 2%Z); (0, 2, 1%Z); (2, 0, 1%Z)], false, (None, None, None), true) /\
+  view (from_adjacency_dict_str pp_sym_passes_weighted
+          {| directed := false; bipartite := false; weighted := true; reindex := false;
+             sum_duplicates := true; shape := None; matrix_only := None |}
+          [("b", ["a"; "c"; "a"]); ("a", [])]%string)
+  = Some (3, 3, [(1, 2, 1%Z); (1, 0, 2%Z); (2, 1, 1%Z); (0, 1, 2%Z)], false, (Some ["a"; "b"; "c"]%string, None, None), false) /\
+  occurrences [[1; 1; 2]; []; [0]] 0 1 = 2.
+Proof. vm_compute. repeat split; reflexivity. Qed.
+
+(** A namespaced, undirected document with int weights (default 2), names with XML-special characters,
+    a duplicate edge, a reversed edge, a self-loop, an edge marked directed, a node and an edge attribute:
+    accepted by the model, one graph element, distinct ids — inside the hypotheses of every theorem above. *)
+Example c18_graphml_nonvacuous :
+  exists g b,
+    from_graphml "weight" 512 doc_example = Ok b /\ doc_graphs doc_example = [g] /\
+    doc_naming g = true /\ doc_ids g = ["a&b"; "x<y"; "c"]%string /\ NoDup (doc_ids g) /\
+    b_n b = 3 /\ b_names b = Some ["a&b"; "x<y"; "c"]%string /\ b_dtype b = PInt /\
+    map (fun i => map (fun j => gm_entry b i j) [0; 1; 2]) [0; 1; 2]
+    = [[0 # 1; 10 # 1; 0 # 1]; [10 # 1; 0 # 1; 0 # 1]; [7 # 1; 0 # 1; 4 # 1]]%Q /\
+    b_node_attr b = Some [("color"%string, (PStr, [VStr "green"; VStr "yellow"; VStr "yellow"]))] /\
+    option_map (map (fun c : string * (ptype * list value) => (fst c, length (snd (snd c))))) (b_edge_attr b) = Some [("len"%string, 9)].
+Proof. exact graphml_example. Qed.
